@@ -90,6 +90,11 @@ func (f *Defun) Call(s *slip.Scope, args slip.List, depth int) (result slip.Obje
 		}
 	}
 	pkg.DefLambda(low, lc, fc, slip.FunctionSymbol)
+	// Calls compiled from now on must refer to the same Lambda as the calls
+	// compiled earlier so that the next redefinition reaches all of them.
+	if shared := pkg.FindLambda(low); shared != nil {
+		lc = shared
+	}
 	if 0 < len(s.Parents()) {
 		lc.Closure = s
 	}
